@@ -29,7 +29,9 @@ TRUSTED = [
     "library samplers `normalvariate`, `gammavariate`, `RandomState.geometric`, `multivariate_normal`",
     "GaussianAnalytic / GaussianDiscrete / LaplaceBoundedDomain: the calibrated `_scale` is read from the mechanism "
     "object (its correctness is C02's subject); C03 checks that the noise is that scale times the unit noise",
-    "Bingham: only the law of the released direction in 2 dimensions is validated (statistically); no model",
+    "Bingham: only the acceptance test is modelled (coded ratio, tied by measuring the real sampler's acceptance "
+    "probability of a scripted proposal); eigen-decomposition, the bisection for b and multivariate_normal are numpy's; the "
+    "law of the released direction is validated statistically in 2 dimensions only",
     "parameter validation (`_check_all`) is not modelled here (C13)",
 ]
 UNPROVED = [
@@ -39,9 +41,12 @@ UNPROVED = [
     "four Gamma(d/4, scale) draws sum to Gamma(d, scale); a normalised Gaussian vector is uniform on the sphere "
     "(validated: KS of |b|/scale against Gamma(d,1), of every coordinate of b/|b| against its Beta marginal, of the "
     "angle for d = 2)",
-    "bernoulli_neg_exp(g) returns 1 with probability exp(-g) and the resulting law of GaussianDiscrete "
-    "(validated: sup over atoms against the discrete Gaussian CDF)",
-    "Bingham's rejection sampler (validated in 2-D: KS of the doubled angle against the von Mises law)",
+    "GaussianDiscrete: proved are the stop law of bernoulli_neg_exp's loop (sum over even stops = exp(-g), g <= 1) and "
+    "proposal x acceptance = const x exp(-k^2/(2 sigma^2)); the composition of these branches into the law of the whole "
+    "loop (independence of successive draws, the recursion for g > 1, conditioning on acceptance) is validated only: sup "
+    "over atoms of the real sampler's noise against the discrete Gaussian CDF",
+    "Bingham's rejection sampler (validated in 2-D: KS of the doubled angle against the von Mises law; at HEAD this "
+    "FAILS — known finding C03:bingham:law:acceptance-inverted, counter-example theorem bingham_accept_cex)",
     "the conditional law of the rejection samplers as a measure-theoretic statement (proved: first accepted draw of "
     "the stream; validated: KS against the conditioned Laplace CDF)",
     "Snapping: the law of the released grid point (validated: sup over atoms against the rounded, clamped Laplace law)",
